@@ -382,6 +382,11 @@ def noneify_nodes(log, names):
 NONE_POS_TOOLS = ("map", "enumerate", "batched", "chain", "cycle", "pairwise", "islice", "zip_longest")
 
 
+def none_p(n):
+    """Which item (1-based) of a first source of n items is the object None: the first one for odd n, the second for even n."""
+    return 1 if n % 2 else 2
+
+
 def none_at(log, s=1, p=2):
     """Expected log with item (s, p) spelled None."""
     def conv(v):
@@ -410,8 +415,8 @@ def none_back(log, k, s=1, p=2):
 
 def _items_for(tool, i, keys):
     items = [Item(i, p + 1, k) for p, k in enumerate(keys)]
-    if tool in NONE_POS_TOOLS and i == 1 and len(items) >= 2:
-        items[1] = None
+    if tool in NONE_POS_TOOLS and i == 1 and len(items) >= 1:
+        items[none_p(len(items)) - 1] = None
         return items
     if tool in NONE_TOOLS:
         return [None if x.k == 0 else x for x in items]
